@@ -776,7 +776,9 @@ func TestC04RareBranches(t *testing.T) {
 		vlib.ExpandInto(seed, uint64(vlib.Seed)*131+7)
 		pk, sk, _, _ := s.derive(seed)
 		_, skb := p.KeyGen(seed)
-		n := vlib.N(250, 1500)
+		// thorough: 16 shards x 7500 = 120 000 messages per scheme, so that paths of probability
+		// about 2.5e-5 (48 or more rounds for ML-DSA-65) are met about three times
+		n := vlib.N(250, 7500)
 		for i := 0; i < n; i++ {
 			ctr := uint64(i)*uint64(vlib.NShards) + uint64(vlib.Shard)
 			msg := []byte(fmt.Sprintf("C04 rare-branch search %d/%d", vlib.Seed, ctr))
@@ -797,10 +799,20 @@ func TestC04RareBranches(t *testing.T) {
 			if len(tr.Rounds) >= 15 {
 				cls = append(cls, "rounds>=15")
 			}
+			if len(tr.Rounds) >= 40 {
+				cls = append(cls, "rounds>=40")
+			}
 			if len(cls) == 0 {
 				continue
 			}
-			csig, err := s.signTo(sk, msg, nil)
+			var csig []byte
+			var err error
+			if pn, st := vlib.Catch(func() { csig, err = s.signTo(sk, msg, nil) }); pn != nil {
+				if !vlib.ReportDirect(t, "C04/panic/"+s.name+"/SignTo/"+vlib.PanicClass(pn), fmt.Sprintf("seed %x msg %q (%v, %d rounds in the specification's run): %v\n%s", seed, msg, cls, len(tr.Rounds), pn, st), map[string]interface{}{"scheme": s.name, "seed": fmt.Sprintf("%x", seed), "msg": string(msg)}) {
+					return
+				}
+				continue
+			}
 			for _, c := range cls {
 				vlib.NonTrivial(sub, c, seed, msg)
 			}
